@@ -77,7 +77,19 @@ def _main_child(args):
     prop = args.property
     tier = args.tier
     base_seed = int(os.environ.get('VERIF_SEED', DEFAULT_SEED[tier]))
+    overlay, rebuilt, rebuild_errors = (None, [], [])
+    if os.environ.get('VERIF_OVERLAY'):
+        overlay = os.environ['VERIF_OVERLAY']
+    else:
+        overlay, rebuilt, rebuild_errors = envsetup.rebuild_stale_c_extensions(envsetup.scratch_dir())
+        if overlay:
+            os.environ['VERIF_OVERLAY'] = overlay
+            os.environ['PYTHONPATH'] = overlay + os.pathsep + os.environ.get('PYTHONPATH', '')
+            print('rebuilt %d compiled extension(s) whose .c is newer than the .so: %s' % (len(rebuilt), ', '.join(rebuilt)), flush=True)
+    if overlay:
+        sys.path.insert(0, overlay)
     engine = make_engine(prop)
+    engine.rebuilt_extensions = rebuilt
     engine.prepare(tier)
 
     if args.digests is not None:
@@ -103,7 +115,7 @@ def _main_child(args):
     print('check %s tier=%s VERIF_SEED=%d runs<=%d budget=%.0fs workers=%d' %
           (prop, tier, base_seed, len(seeds), budget_s, args.workers), flush=True)
 
-    harness_errors = []
+    harness_errors = ['rebuild of a stale extension failed: %s' % e for e in rebuild_errors]
 
     # ---- extra deterministic parts of the check (fidelity of stubs, directed scenarios, sweeps) ----
     pre = engine.pre_checks(tier, base_seed, args.workers)
@@ -365,6 +377,7 @@ def _write_evidence(engine, prop, tier, base_seed, agg, det, pre, known_hits, n_
         'runs_skipped_at_deadline': agg.skipped,
         'known_findings_seen': {fid: {'count': c, 'what': w} for fid, (c, w, _) in sorted(known_hits.items())},
         'stale_extensions': envsetup.stale_extensions(),
+        'extensions_rebuilt_from_newer_c': getattr(engine, 'rebuilt_extensions', []),
         'harness_errors': [str(h)[:500] for h in harness_errors[:10]],
         'sources': envsetup.source_fingerprint(engine.source_files),
         'exhaustive': False,
